@@ -268,6 +268,119 @@ def part_compounds(payload):
     return part
 
 
+# ---------------------------------------------------------------- user-defined symbols
+DEF_UNITS = {"m": T.LENGTH, "km": T.LENGTH, "pc": T.LENGTH, "inch": T.LENGTH, "g": T.MASS, "Msun": T.MASS, "s": T.TIME, "yr": T.TIME, "J": T.ENERGY, "erg": T.ENERGY, "km/s": T.VELOCITY}
+DEF_NAMES = ["smootx", "pccm", "kpccmx", "xcm", "code_length", "dam2", "mq", "cmcm"]
+
+
+@st.composite
+def defined_case(draw):
+    return {"reg": draw(st.sampled_from(["plain", "cgs", "imperial", "galactic", "solar", "custom-system"])),
+            "route": draw(st.sampled_from(["add", "define_unit-tuple", "define_unit-quantity", "add+modify-float", "add+modify-quantity"])),
+            "name": draw(st.sampled_from(DEF_NAMES)), "value": draw(st.sampled_from([1.7018, 2.0, 0.125, 3.0e3, 1.0 / 3.0, 42.0])),
+            "unit": draw(st.sampled_from(sorted(DEF_UNITS))), "prefixable": draw(st.booleans()),
+            "order": draw(st.permutations(["k{n}", "M{n}", "{n}", "m{n}", "k{n}**2", "{n}/s", "kpc", "Mpc", "pc", "km", "kg", "kpc/M{n}", "sqrt({n})", "cm", "dam"]))}
+
+
+def _case_defined(c, part):
+    """a symbol defined through any route, in a registry with any unit system, has the scale its definition says --
+    alone, prefixed and inside compounds -- and resolving it never disturbs how other names resolve"""
+    import unyt.dimensions as D
+    from unyt import Unit, UnitSystem, define_unit, unyt_quantity
+    from unyt.unit_registry import UnitRegistry
+
+    out = []
+    part.ev()
+    if c["reg"] == "plain":
+        reg = UnitRegistry()
+    elif c["reg"] == "custom-system":
+        UnitSystem("vfc02sys", "km", "Msun", "hr", temperature_unit="R")
+        reg = UnitRegistry(unit_system="vfc02sys")
+    else:
+        reg = UnitRegistry(unit_system=c["reg"])
+    n, v, ustr = c["name"], c["value"], c["unit"]
+    usc = float(Unit(ustr).base_value)  # the defining unit's own scale is judged in part A; here: the arithmetic of the definition
+    dim = DEF_UNITS[ustr]
+    want = v * usc
+    libdim = Unit(ustr).dimensions
+    try:
+        if c["route"] == "add":
+            reg.add(n, want, libdim, prefixable=c["prefixable"])
+        elif c["route"] == "define_unit-tuple":
+            define_unit(n, (v, ustr), registry=reg, prefixable=c["prefixable"])
+        elif c["route"] == "define_unit-quantity":
+            define_unit(n, unyt_quantity(v, ustr, registry=reg), registry=reg, prefixable=c["prefixable"])
+        elif c["route"] == "add+modify-float":
+            reg.add(n, 7.0, libdim, prefixable=c["prefixable"])
+            Unit("k" + n if c["prefixable"] else n, registry=reg)
+            reg.modify(n, want)
+        else:
+            reg.add(n, 7.0, D.time, prefixable=c["prefixable"])
+            reg.modify(n, unyt_quantity(v, ustr, registry=reg))
+    except Exception as e:
+        out.append((f"C02:definition-raises:{c['route']}:{type(e).__name__}", {"case": c, "error": str(e)[:160]}))
+        return out
+    part.nt((c["reg"], c["route"], n, c["prefixable"]))
+    PV = {"k": 1e3, "M": 1e6, "m": 1e-3}
+    for tmpl in c["order"]:
+        probe = tmpl.format(n=n)
+        part.ev()
+        # expected scale / dimension from the definition and the independent table
+        if tmpl in ("kpc", "Mpc", "pc", "km", "kg", "cm", "dam"):
+            es, ed, _ = R.atom(probe)
+            es = float(es)
+            tol = 1e-6  # table-row accuracy is judged elsewhere; here: not disturbed by the new symbol (factors of (1+z), 1e3, ...)
+        else:
+            tol = 1e-12
+            pre = tmpl[0] if tmpl[0] in PV and tmpl[1:].startswith("{n}") else ""
+            if pre and not c["prefixable"]:
+                expect_unknown = True
+            else:
+                expect_unknown = False
+            base = want * PV.get(pre, 1.0)
+            if tmpl.endswith("**2"):
+                es, ed = base * base, T.dpow(dim, 2)
+            elif tmpl.endswith("/s"):
+                es, ed = base, T.ddiv(dim, T.TIME)
+            elif tmpl.startswith("kpc/M"):
+                if not c["prefixable"]:
+                    expect_unknown = True
+                es, ed = float(R.atom("kpc")[0]) / (want * 1e6), T.ddiv(T.LENGTH, dim)
+                tol = 1e-6
+            elif tmpl.startswith("sqrt"):
+                es, ed = want**0.5, T.dpow(dim, T.Fr(1, 2))
+            else:
+                es, ed = base, dim
+            if expect_unknown:
+                try:
+                    u = Unit(probe, registry=reg)
+                    # a name like 'mq' may legitimately read as prefix+symbol of a *default* unit; only same-dimension hits are wrong
+                    if R.dimvec_of(u.dimensions) == ed and abs(float(u.base_value) / es - 1) < 1e-9:
+                        out.append((f"C02:prefix-accepted-on-nonprefixable-user-symbol:{c['route']}", {"case": c, "probe": probe}))
+                except Exception:
+                    pass
+                continue
+        try:
+            u = Unit(probe, registry=reg)
+        except Exception as e:
+            out.append((f"C02:user-symbol-unresolvable:{c['route']}:{tmpl}", {"case": c, "probe": probe, "error": f"{type(e).__name__}: {e}"[:160]}))
+            continue
+        gs, gd = float(u.base_value), R.dimvec_of(u.dimensions)
+        if gd != ed or abs(gs / es - 1) > tol:
+            kind = "default-name-disturbed" if tmpl in ("kpc", "Mpc", "pc", "km", "kg", "cm", "dam") else "user-symbol-scale"
+            out.append((f"C02:{kind}:{c['route']}:{c['reg'] if c['reg'] == 'plain' else 'non-mks-registry'}", {"case": {k: (list(x) if isinstance(x, tuple) else x) for k, x in c.items()},
+                                                                   "probe": probe, "got": [gs, T.dim_name(gd)], "want": [es, T.dim_name(ed)]}))
+            break
+    return out
+
+
+def part_defined(payload):
+    known = core.Known("C02")
+    part = core.Part()
+    core.hyp_explore(part, known, defined_case(), _case_defined, payload["n"], payload["seed"], label="C02:defined")
+    return part
+
+
 # ---------------------------------------------------------------- driver
 def run(ctx):
     ctx.rule = (
@@ -275,7 +388,9 @@ def run(ctx):
         "same-dimension pairs of canonical (prefix x symbol) names (quick: seeded sample, thorough: all); "
         "C: Hypothesis-generated compound expressions (1-6 factors, rational exponents, coefficients, "
         "sqrt, parentheses, custom-registry units) vs exact evaluator and conversion to a constructed "
-        "commensurable partner. non-trivial = distinct (prefix,base) names + distinct unit pairs + "
+        "commensurable partner; D: user-defined symbols through add / define_unit (tuple, quantity) / modify (float, quantity) in "
+        "registries with plain, built-in non-MKS and custom unit systems, probed alone, prefixed and in compounds in random order "
+        "together with default names (kpc, Mpc, km, cm, ...) that must not be disturbed. non-trivial = distinct (prefix,base) names + distinct unit pairs + "
         "distinct expression shapes with >=2 atoms or parentheses"
     )
     ctx.assumptions = [
@@ -306,6 +421,8 @@ def run(ctx):
     n = ctx.pick(4000, 80000)
     k = 16
     ctx.merge(core.pmap(MOD, "part_compounds", [{"n": n // k, "seed": ctx.seed * 1000 + i} for i in range(k)]))
+    n2 = ctx.pick(1600, 32000)
+    ctx.merge(core.pmap(MOD, "part_defined", [{"n": n2 // k, "seed": ctx.seed * 1000 + 500 + i} for i in range(k)]))
     ctx.exhaustive = False
 
 
